@@ -567,6 +567,9 @@ def _evaluate_log_F_ext_using_lmfit(
             prog if max_nfev else None,
         ),
         max_nfev=max_nfev,
+        # Differential evolution is a stochastic method. A fixed seed is used
+        # so that the same input gives the same result every time.
+        **({"seed": 0} if method == "differential_evolution" else {}),
     )
     if not max_nfev:
         prog.increment()
